@@ -245,7 +245,8 @@ def has_invalid(case) -> bool:
 
 # ---- projection of abstract histories onto real projects (h_fs_e2e) --------------------------------
 
-SCHEMA = "type Query {\n  me: User\n  viewer: User\n}\n\ntype User {\n  id: ID!\n  name: String\n  email: String\n}\n"
+SCHEMA = ("type Query {\n  me: User\n  viewer: User\n  node(id: ID!): User\n}\n\n"
+          "type User {\n  id: ID!\n  name: String\n  email: String\n  nick(upper: Boolean): String\n}\n")
 
 
 def _ts(body: str) -> str:
@@ -254,6 +255,11 @@ def _ts(body: str) -> str:
 
 def _field(parent, name, sel, fn):
     return (f"export const {fn} = iso(`\n  field {parent}.{name} {{\n{sel}\n  }}\n`)(function {fn}C({{ data }}) {{\n"
+            f"  return data;\n}});\n")
+
+
+def _fieldv(parent, name, vars_, sel, fn):
+    return (f"export const {fn} = iso(`\n  field {parent}.{name}{vars_} {{\n{sel}\n  }}\n`)(function {fn}C({{ data }}) {{\n"
             f"  return data;\n}});\n")
 
 
@@ -278,6 +284,21 @@ INVALID_CLASSES = [
     ("undefined-parent-type", "src/z.ts", _ts(_field("Nope", "X", "    id", "X"))),
     ("undefined-variable", "src/z.ts", _ts(_field("Query", "Arg", "    node(id: $missing) {\n      id\n    }", "Arg"))),
     ("schema-file-removed", "schema.graphql", None),      # CompilerState::new / update_sources fail ("sources" stage)
+    # one class per remaining rule of the validators (added after seeded/C17-unused-variable-lint-after-write: a change
+    # that demotes ONE diagnostic class to "report after writing" is invisible to classes that fail elsewhere)
+    ("unused-variable", "src/z.ts", _ts(_fieldv("Query", "Arg", "($id: ID!)", "    me {\n      id\n    }", "Arg"))),
+    ("undeclared-variable", "src/z.ts", _ts(_field("Query", "Arg", "    node(id: $missing) {\n      id\n    }", "Arg"))),
+    ("missing-required-argument", "src/z.ts", _ts(_field("Query", "Arg", "    node {\n      id\n    }", "Arg"))),
+    ("undefined-argument", "src/z.ts", _ts(_field("User", "Arg", "    name(foo: 1)", "Arg"))),
+    ("incompatible-argument-type", "src/z.ts", _ts(_field("User", "Arg", "    nick(upper: 3)", "Arg"))),
+    ("scalar-with-selection-set", "src/z.ts", _ts(_field("User", "Arg", "    name {\n      id\n    }", "Arg"))),
+    ("object-without-selection-set", "src/z.ts", _ts(_field("Query", "Arg", "    me", "Arg"))),
+    ("duplicate-response-name", "src/z.ts", _ts(_field("User", "Arg", "    name\n    name", "Arg"))),
+    ("entrypoint-of-server-field", "src/z.ts", _ts("export const ep2 = iso(`entrypoint Query.me`);\n")),
+    ("cyclic-client-field", "src/z.ts", _ts(_field("User", "Cyc", "    Cyc", "Cyc"))),
+    ("client-field-named-like-server-field", "src/z.ts", _ts(_field("User", "name", "    id", "Shadow"))),
+    ("pointer-to-undefined-type", "src/z.ts", _ts("export const P = iso(`\n  pointer User.best to Nope {\n    id\n  }\n`)(function PC({ data }) {\n  return data;\n});\n")),
+    ("schema-undefined-type", "schema.graphql", SCHEMA + "\ntype Extra {\n  x: Missing\n}\n"),
 ]
 
 
@@ -602,6 +623,10 @@ def run(chk: vlib.Check) -> None:
             chk.cov["invalid_compiles_observed"] = per_cls
             modes = {x["mode"] for x in inv}
             with_files = [x for x in inv if any(e["k"] == "f" for e in x["pre"])]
+            seen_cls = {k.split("/")[0] for k in per_cls}
+            missing_cls = [c[0] for c in INVALID_CLASSES if c[0] not in seen_cls]
+            if missing_cls:
+                raise vlib.ToolError(f"vacuous C17 run: classes never observed as a compile that reports an error: {missing_cls}")
             if not {"batch", "live"} <= modes or not with_files:
                 raise vlib.ToolError(f"vacuous C17 run: invalid compiles observed per class/mode: {per_cls}")
 
@@ -658,7 +683,7 @@ def run(chk: vlib.Check) -> None:
     else:
         nontrivial = {json.dumps([x.get("diag"), x["mode"], [(e["p"], e["c"]) for e in x["pre"]]], sort_keys=True)
                       for x in judged if x["t"] == "invalid" and any(e["k"] == "f" for e in x["pre"])}
-        chk.cov["rule"] = ("histories = model histories ending in an invalid compile x 8 classes of invalid programs, run "
+        chk.cov["rule"] = ("histories = model histories ending in an invalid compile x " + str(len(INVALID_CLASSES)) + " classes of invalid programs, run "
                            "through the real compiler in batch and watch mode; non-trivial = distinct (diagnostic, mode, "
                            "directory before) triples where the directory held files")
     chk.cov["distinct_nontrivial"] = len(nontrivial)
